@@ -277,9 +277,12 @@ F8_PROBE = {"src": "p0([]).\np0(V2) :- p0(V1), V2 = fn:list:cons(1, V1).", "pre"
 
 
 # ------------------------------------------------------------------ case encoding
-def go_case(prog, store, det, limit, nofacts=False):
+def go_case(prog, store, det, limit, nofacts=False, tstore=False):
+    """tstore: the run also configures engine.WithTemporalStore(factstore.NewTemporalStore()) and
+    WithEvaluationTime - a configuration dimension of the correspondence, not of the model: the
+    program is non-temporal, the judged observables (class, ordinary store) are the same."""
     return {"src": dc.to_mangle(prog), "pre": dc.facts_text(prog.get("pre", [])), "store": store,
-            "det": det, "limit": limit, "timeout_ms": GUARD_MS, "nofacts": nofacts}
+            "det": det, "limit": limit, "timeout_ms": GUARD_MS, "nofacts": nofacts, "tstore": tstore}
 
 
 def layers_from_go(o):
@@ -371,6 +374,228 @@ def temporal_probe(ck, case=None):
     return False, what, o
 
 
+
+# ------------------------------------------------------------------ temporal / mixed programs
+# Programs with predicates declared `temporal` (facts go to the temporal store), alone or
+# next to ordinary recursion, run through runner c17_mixed with WithTemporalStore +
+# WithEvaluationTime + WithCreatedFactLimit(L). coq/Datalog/Limit.v models the ordinary store
+# only, so the verdicts here come from property-level oracles on Go's own outputs:
+#  (b) no return within the guard;
+#  (a) nil error on a program whose least model is infinite by construction, or nil error on a
+#      finite program with stores (ordinary + temporal) different from those of the same
+#      engine run without a limit (a finished limited run is the finished unlimited run:
+#      limit_ok_simulates read on the implementation);
+#  (c) a store at return above |E| + (R + 2) * L, E = the facts the store held plus the facts
+#      of the text that go to it, R = number of rules (the argument of limit_bound applied to
+#      each of the two stores; for the temporal store it is an oracle bound, not a theorem).
+MIXED_GUARD_MS = 10000
+T0 = "2024-01-01T00:00:00Z"           # the harness's evaluation time; tpre facts hold at [T0]
+
+
+def _plain_part(rng, finite):
+    """-> (kind, diverges, rules, text facts, pre facts) over the ordinary predicates p, q, e, b"""
+    k = rng.choice(["none", "fin-bounded", "fin-bounded", "fin-closure", "fin-product"] if finite else
+                   ["none", "div-counter", "div-counter", "div-let", "div-fanout", "div-nonlinear", "div-mutual",
+                    "fin-bounded", "fin-closure", "fin-product"])
+    seeds = sorted(rng.sample(range(0, 12), rng.randint(1, 2)))
+    st = rng.randint(1, 3)
+    if k == "none":
+        return k, False, [], [], []
+    if k == "div-counter":
+        return k, True, ["p(Y) :- p(X), Y = fn:plus(X,%d)." % st], ["p(%d)." % v for v in seeds], []
+    if k == "div-let":
+        return k, True, ["p(Y) :- p(X) |> let Y = fn:plus(X,%d)." % st], ["p(%d)." % v for v in seeds], []
+    if k == "div-fanout":
+        m = rng.randint(2, 4)
+        return (k, True, ["p(Y) :- p(X), b(K), Y = fn:plus(fn:mult(X,%d),K)." % m],
+                ["p(1)."], ["b(%d)." % v for v in range(m)])
+    if k == "div-nonlinear":
+        return k, True, ["p(Z) :- p(X), p(Y), Z = fn:plus(X,Y)."], ["p(%d)." % (v + 1) for v in seeds], []
+    if k == "div-mutual":
+        return (k, True, ["q(Y) :- p(X), Y = fn:plus(X,1).", "p(Y) :- q(X), Y = fn:plus(X,1)."],
+                ["p(%d)." % seeds[0]], [])
+    if k == "fin-bounded":
+        b = rng.randint(2, 20)
+        return k, False, ["p(Y) :- p(X), X < %d, Y = fn:plus(X,1)." % b], ["p(%d)." % v for v in seeds], []
+    if k == "fin-closure":
+        n = rng.randint(2, 6)
+        edges = ["e(%d,%d)." % (i, i + 1) for i in range(1, n)] + (["e(%d,1)." % n] if rng.random() < 0.4 else [])
+        return k, False, ["p(Y) :- p(X), e(X,Y)."], ["p(1)."], edges
+    n = rng.randint(1, 5)
+    return k, False, ["q(X,Y) :- b(X), b(Y)."], [], ["b(%d)." % v for v in range(1, n + 1)]
+
+
+def _temporal_part(rng, finite):
+    """-> (kind, diverges, rules, seeds of t, ordinary pre facts) over the temporal predicate t"""
+    k = rng.choice(["fin-bounded", "fin-closure"] if finite else
+                   ["div-counter", "div-counter", "div-nonlinear", "div-fanout", "fin-bounded", "fin-bounded",
+                    "fin-closure"])
+    seeds = sorted(rng.sample(range(0, 12), rng.randint(1, 2)))
+    if k == "div-counter":
+        return k, True, ["t(Y)@[S,E] :- t(X)@[S,E], Y = fn:plus(X,%d)." % rng.randint(1, 3)], seeds, []
+    if k == "div-nonlinear":
+        return k, True, ["t(Z)@[S,E] :- t(X)@[S,E], t(Y)@[S,E], Z = fn:plus(X,Y)."], [v + 1 for v in seeds], []
+    if k == "div-fanout":
+        m = rng.randint(2, 4)
+        return (k, True, ["t(Y)@[S,E] :- t(X)@[S,E], tk(K), Y = fn:plus(fn:mult(X,%d),K)." % m], [1],
+                ["tk(%d)." % v for v in range(m)])
+    if k == "fin-bounded":
+        return k, False, ["t(Y)@[S,E] :- t(X)@[S,E], X < %d, Y = fn:plus(X,1)." % rng.randint(2, 20)], seeds, []
+    n = rng.randint(2, 6)
+    edges = ["te(%d,%d)." % (i, i + 1) for i in range(1, n)] + (["te(%d,1)." % n] if rng.random() < 0.4 else [])
+    return k, False, ["t(Y)@[S,E] :- t(X)@[S,E], te(X,Y)."], [1], edges
+
+
+def gen_mixed(rng):
+    """One temporal or mixed program: an ordinary part (possibly empty), a temporal part, and
+    optionally one link between them (ordinary recursion seeded from temporal facts, or the
+    other way round). The least model is infinite iff one of the parts diverges."""
+    finite = rng.random() < 0.3               # a share of programs with a finite model: runs around their size
+    pk, pdiv, prules, ptext, ppre = _plain_part(rng, finite)
+    tk, tdiv, trules, tseeds, tpre_plain = _temporal_part(rng, finite)
+    link = "none"
+    rules = list(prules) + list(trules)
+    if pk not in ("none", "fin-product", "div-fanout") and rng.random() < 0.35:
+        link = rng.choice(["t2p", "p2t"])
+        rules.append("p(X) :- t(X)@[S,E]." if link == "t2p" else "t(X)@[now] :- p(X).")
+    rng.shuffle(rules)
+    seeds_in_text = rng.random() < 0.4        # facts of the text count against the limit
+    text_facts = list(ptext) + ([("t(%d)@[%s]." % (v, T0)) for v in tseeds] if seeds_in_text else [])
+    # extensional ordinary predicates (b, e, tk, te): all facts of one predicate live in one
+    # place, the text (they count against the limit) or the caller's store (they do not)
+    pre, home = [], {}
+    for f in ppre + tpre_plain:
+        pred = f.split("(")[0]
+        if pred not in home:
+            home[pred] = rng.choice(["text", "pre"])
+        (pre if home[pred] == "pre" else text_facts).append(f)
+    src = "\n".join(["Decl t(X) temporal."] + text_facts + rules)
+    return {"family": "%s+t-%s%s" % (pk, tk, "" if link == "none" else "+" + link),
+            "plain_kind": pk, "temporal_kind": tk, "link": link, "diverges": bool(pdiv or tdiv),
+            "src": src, "pre": " ".join(pre), "tpre": [] if seeds_in_text else [["t", v] for v in tseeds],
+            "init_plain": sum(1 for f in text_facts if "@[" not in f),
+            "init_temporal": sum(1 for f in text_facts if "@[" in f)}
+
+
+def mixed_case(mp, store, det, limit):
+    return {"src": mp["src"], "pre": mp["pre"], "tpre": mp["tpre"], "store": store, "det": det,
+            "limit": limit, "timeout_ms": MIXED_GUARD_MS}
+
+
+def mixed_bounds(mp, r, limit):
+    """(bound on the ordinary store, bound on the temporal store) at any return"""
+    k = (r["rules"] + 2) * limit
+    return r["plain_before"] + mp["init_plain"] + k, r["temporal_before"] + mp["init_temporal"] + k
+
+
+def mixed_verdict(mp, r, limit, ref):
+    """Property verdict of one limited run of a temporal / mixed program, decided on Go's
+    output. ref = the run of the same engine without a limit (finite programs only).
+    -> (code, text); code None = the property holds on this run."""
+    if r["err"] == "timeout":
+        return "b", "(b) no return within the wall-clock guard of %d ms" % MIXED_GUARD_MS
+    if r["err"] == "panic":
+        return "p", "evaluation under a fact limit panicked: %s" % r.get("emsg")
+    bp, bt = mixed_bounds(mp, r, limit)
+    if r["plain_after"] > bp:
+        return "c", "(c) ordinary store holds %d facts at return, bound %d" % (r["plain_after"], bp)
+    if r["temporal_after"] > bt:
+        return "c", "(c) temporal store holds %d facts at return, bound %d (oracle bound)" % (r["temporal_after"], bt)
+    if r["err"] == "":
+        if mp["diverges"]:
+            return "a", ("(a) nil error with %d ordinary / %d temporal facts although the least model is infinite "
+                         "by construction" % (r["plain_after"], r["temporal_after"]))
+        if ref is not None and (r["plain"] != ref["plain"] or r["temporal"] != ref["temporal"]):
+            return "a", ("(a) nil error, but the stores differ from those of the run without a limit "
+                         "(%d/%d ordinary, %d/%d temporal facts)" % (len(r["plain"]), len(ref["plain"]),
+                                                                    len(r["temporal"]), len(ref["temporal"])))
+    return None, ""
+
+
+def run_mixed_stream(ck, progs, fixed_limits, origin):
+    """Runs the temporal / mixed programs; returns the coverage block."""
+    rng = ck.rng
+    # reference runs (no limit) of the finite programs; never for a diverging one
+    fin = [i for i, mp in enumerate(progs) if not mp["diverges"]]
+    refs_out = ck.run_go("c17_mixed", [mixed_case(progs[i], "simple", True, 0) for i in fin], timeout=3000)
+    refs, rejected = {}, []
+    for i, o in zip(fin, refs_out):
+        r = o.get("out")
+        if r is None or r["stage"] != "ok" or r["err"] != "":
+            rejected.append((i, json.dumps(o)[:300]))
+            continue
+        refs[i] = r
+    runs = []
+    for i, mp in enumerate(progs):
+        if i in fixed_limits:
+            for l in fixed_limits[i]:
+                for st in STORES:
+                    for det in (False, True):
+                        runs.append((i, st, det, l))
+            continue
+        lims = set()
+        if mp["diverges"]:
+            lims |= {rng.randint(1, 30) for _ in range(ck.n(3, 5))}
+            lims.add(rng.choice([1, 2, 30]))
+        elif i in refs:
+            r = refs[i]
+            mp_, mt_ = r["plain_after"] - r["plain_before"], r["temporal_after"] - r["temporal_before"]
+            for m in (mp_, mt_, mp_ + mt_):
+                if 1 <= m <= 150:
+                    lims |= {m - 1, m, m + 1}
+            lims |= {rng.randint(1, 30) for _ in range(2)}
+        for l in sorted(x for x in lims if 1 <= x <= 400):
+            runs.append((i, rng.choice(STORES), rng.random() < 0.5, l))
+    outs = ck.run_go("c17_mixed", [mixed_case(progs[i], st, det, l) for (i, st, det, l) in runs], timeout=3000)
+    classes, vcount, skipped, durations = {}, {}, 0, []
+    for (i, st, det, l), o in zip(runs, outs):
+        r = o.get("out")
+        mp = progs[i]
+        if r is None:
+            if len(ck.violations) < 5:
+                ck.violation({"property": "C17", "kind": "harness error / panic escaped (temporal / mixed stream)",
+                              "mixed_case": mixed_case(mp, st, det, l), "impl": o})
+            continue
+        if r["stage"] == "skipped":
+            skipped += 1
+            continue
+        if r["stage"] != "ok":
+            rejected.append((i, json.dumps(r)[:300]))
+            continue
+        classes[r["err"] or "ok"] = classes.get(r["err"] or "ok", 0) + 1
+        durations.append(r["ms"])
+        code, text = mixed_verdict(mp, r, l, refs.get(i))
+        vcount[code or "holds"] = vcount.get(code or "holds", 0) + 1
+        if code is None or len(ck.violations) >= 5:
+            continue
+        ck.violation({"property": "C17", "verdict": code, "kind": text, "origin": origin[i], "family": mp["family"],
+                      "diverges": mp["diverges"], "mixed_program": mp, "mixed_case": mixed_case(mp, st, det, l),
+                      "limit": l, "store": st, "det": det,
+                      "go": {k: r[k] for k in ("err", "emsg", "ms", "rules", "plain_before", "plain_after",
+                                               "temporal_before", "temporal_after") if k in r},
+                      "go_plain": r["plain"][:60], "go_temporal": r["temporal"][:60],
+                      "reference_without_limit": ({"plain": refs[i]["plain"][:60], "temporal": refs[i]["temporal"][:60]}
+                                                  if i in refs else None),
+                      "why_violation": "decided on Go's output by a property-level oracle (the Coq limit model covers "
+                                       "the ordinary store of non-temporal programs): " + text})
+    if rejected and len(ck.violations) < 5:
+        ck.violation({"property": "C17", "kind": "generator: a temporal / mixed program was rejected, or the reference "
+                                                 "run of a finite one did not finish",
+                      "no_longer_checks": "temporal / mixed stream of checks/c17.py (input distribution broken)",
+                      "samples": [(progs[i]["src"], m) for i, m in rejected[:3]]}, "no-failing-input-found")
+    fams = {}
+    for mp in progs:
+        key = "%s | %s | link %s" % (mp["plain_kind"], mp["temporal_kind"], mp["link"])
+        fams[key] = fams.get(key, 0) + 1
+    return {"programs": len(progs), "with_infinite_model": sum(1 for mp in progs if mp["diverges"]),
+            "reference_runs_without_limit": len(fin), "limited_runs": len(runs), "go_outcomes": classes,
+            "verdicts": vcount, "skipped_after_guard_expiries": skipped, "rejected": len(rejected),
+            "max_ms_per_evaluation": max(durations or [0]), "guard_ms": MIXED_GUARD_MS,
+            "oracle": "property-level oracles on Go's outputs: guard; nil error on a diverging program; nil error with "
+                      "stores != the engine's own unlimited run; stores above |E| + (rules + 2) * L",
+            "families": fams, "sample": progs[-1]["src"] if progs else ""}, len(runs) + len(fin)
+
+
 # ------------------------------------------------------------------ the check
 def run(ck):
     ck.obligations()
@@ -380,10 +605,16 @@ def run(ck):
     # ---- programs: corpus, exhaustive sweep (thorough), generated
     progs, origin, fixed_limits = [], [], {}
     probes = []
+    mixed_progs, mixed_origin, mixed_fixed = [], [], {}
     for path in sorted(glob.glob(os.path.join(HERE, "..", "corpus", "C17", "*.json"))):
         j = json.load(open(path))
         if j.get("kind") == "temporal":
             probes.append((os.path.basename(path), j["case"]))
+            continue
+        if j.get("kind") == "mixed":
+            mixed_fixed[len(mixed_progs)] = j["limits"]
+            mixed_progs.append(j["mixed_program"])
+            mixed_origin.append("corpus:" + os.path.basename(path))
             continue
         fixed_limits[len(progs)] = j["limits"]
         progs.append(j["program"])
@@ -404,9 +635,11 @@ def run(ck):
     # ---- phase 1: sizing run (finite? how many facts are created?)
     sizing = ck.run_go("c17", [go_case(p, "simple", True, SIZING_LIMIT, nofacts=True) for p in progs], timeout=3000)
     ck.log("sizing done: %d programs" % len(progs))
-    runs = []          # (program index, store, det, limit)
+    runs = []          # (program index, store, det, limit, temporal store configured)
     rejected, created = [], {}
     for i, o in enumerate(sizing):
+        if "out" in o and o["out"]["stage"] == "skipped":
+            continue                     # the guard expired three times in this batch: verdicts (b) below
         if "out" not in o or o["out"]["stage"] != "ok":
             rejected.append((i, json.dumps(o)[:300]))
             continue
@@ -426,34 +659,52 @@ def run(ck):
                 lims |= {rng.randint(1, 30) for _ in range(ck.n(3, 6))}
                 lims.add(rng.choice([1, 2, 30]))
             lims = {l for l in lims if 1 <= l <= 400}
+        # every limited run twice: without and with a configured (empty) temporal store
         for l in sorted(lims):
             if origin[i] == "exhaustive" or origin[i].startswith("corpus"):
                 for st in stores_for(progs[i], l):
                     for det in (False, True):
-                        runs.append((i, st, det, l))
+                        for ts in (False, True):
+                            runs.append((i, st, det, l, ts))
             else:
-                runs.append((i, rng.choice(stores_for(progs[i], l)), rng.random() < 0.5, l))
-    outs = ck.run_go("c17", [go_case(progs[i], st, det, l) for (i, st, det, l) in runs], timeout=3000)
+                st, det = rng.choice(stores_for(progs[i], l)), rng.random() < 0.5
+                for ts in (False, True):
+                    runs.append((i, st, det, l, ts))
+    outs = ck.run_go("c17", [go_case(progs[i], st, det, l, tstore=ts) for (i, st, det, l, ts) in runs], timeout=3000)
     ck.log("go side done: %d evaluations" % len(runs))
 
     # ---- model side: identical (program, layers, limit, observation) judged once
     terms, index, where = [], {}, []
     go_classes, durations = {}, []
-    for (i, st, det, l), o in zip(runs, outs):
+    breaker_skipped, temporal_nonempty = 0, 0
+    for (i, st, det, l, ts), o in zip(runs, outs):
         if "out" not in o:
             if len(ck.violations) < 5:
                 ck.violation({"property": "C17", "kind": "harness error / panic escaped", "program": progs[i],
-                              "limit": l, "store": st, "det": det, "impl": o})
+                              "limit": l, "store": st, "det": det, "tstore": ts, "impl": o})
             where.append(None)
             continue
         r = o["out"]
+        if r["stage"] == "skipped":
+            breaker_skipped += 1
+            where.append(None)
+            continue
+        if r.get("temporal", 0) != 0:
+            temporal_nonempty += 1
+            if len(ck.violations) < 5:
+                ck.violation({"property": "C17", "kind": "a non-temporal program left %d facts in the configured temporal "
+                              "store" % r["temporal"], "no_longer_checks": "correspondence Run.C17.judge (temporal-store "
+                              "configuration: the ordinary store is the only store a non-temporal program writes)",
+                              "program": progs[i], "src": dc.to_mangle(progs[i]), "limit": l, "store": st, "det": det},
+                             "no-failing-input-found")
         go_classes[r["err"] or "ok"] = go_classes.get(r["err"] or "ok", 0) + 1
         durations.append(r["ms"])
         if r["err"] == "panic":
             if len(ck.violations) < 5:
                 ck.violation({"property": "C17", "kind": "evaluation under a fact limit panicked (neither a complete "
                               "result nor an error return)", "program": progs[i], "src": dc.to_mangle(progs[i]),
-                              "limit": l, "store": st, "det": det, "go": {"err": r["err"], "msg": r.get("emsg")}})
+                              "limit": l, "store": st, "det": det, "tstore": ts,
+                              "go": {"err": r["err"], "msg": r.get("emsg")}})
             where.append(None)
             continue
         try:
@@ -474,26 +725,31 @@ def run(ck):
 
     vc, f8_skipped, kind_differs = {}, 0, 0
     reported = set()
-    for (i, st, det, l), o, w in zip(runs, outs, where):
+    vc_ts = {}
+    for (i, st, det, l, ts), o, w in zip(runs, outs, where):
         if w is None:
             continue
         v = verdicts[w]
         vc[v] = vc.get(v, 0) + 1
+        if ts:
+            vc_ts[v] = vc_ts.get(v, 0) + 1
         if v == 0:
             continue
         if v == 1:
             kind_differs += 1        # rule order decides which error comes first: not a disagreement
             continue
-        if w in reported or len(ck.violations) >= 5:
+        if (w, ts) in reported or len(ck.violations) >= 5:
             continue
-        reported.add(w)
+        reported.add((w, ts))
         r = o["out"]
         prog = progs[i]
         gof = dc.facts_from_go(r["facts"]) if r["err"] != "timeout" else []
         mv = model_view(ck, terms[w]) if v != 8 else {}
         rep = {"property": "C17", "verdict": v, "kind": VERDICT[v], "origin": origin[i], "family": prog.get("family"),
                "program": prog, "src": dc.to_mangle(prog), "pre": dc.facts_text(prog.get("pre", [])),
-               "limit": l, "store": st, "det": det,
+               "limit": l, "store": st, "det": det, "tstore": ts,
+               "configuration": ("WithCreatedFactLimit(%d)%s%s" % (l, ", WithDeterministicOrder()" if det else "",
+                                 ", WithTemporalStore(factstore.NewTemporalStore()), WithEvaluationTime(t)" if ts else "")),
                "go": {"err": r["err"], "msg": r.get("emsg"), "ms": r["ms"], "layers": r["layers"],
                       "n_before": r["n_before"], "n_after": r["n_after"], "store": dc.canon(gof)},
                "model": {k: x for k, x in mv.items() if k != "facts"}}
@@ -550,6 +806,13 @@ def run(ck):
                                            "evaluation must stop with an error (findings N1 + N15; fixes/N1.patch, "
                                            "fixes/N15.patch)"})
 
+    # ---- temporal and mixed programs with a configured temporal store (oracle-judged)
+    for _ in range(ck.n(36, 250)):
+        mixed_progs.append(gen_mixed(rng))
+        mixed_origin.append("random")
+    mixed_cov, mixed_evals = run_mixed_stream(ck, mixed_progs, mixed_fixed, mixed_origin)
+    ck.log("temporal / mixed stream done: %d evaluations" % mixed_evals)
+
     # ---- generator health
     rej_bad = [x for x in rejected if origin[x[0]] != "random" or progs[x[0]].get("family") != "datalog_common.gen_program"]
     if rej_bad and len(ck.violations) < 5:
@@ -562,20 +825,28 @@ def run(ck):
         fams[p.get("family", "corpus")] = fams.get(p.get("family", "corpus"), 0) + 1
         divs += 1 if p.get("diverges") else 0
     lim_hist = {}
-    for (_, _, _, l) in runs:
+    for (_, _, _, l, _) in runs:
         b = "1-5" if l <= 5 else "6-15" if l <= 15 else "16-30" if l <= 30 else ">30"
         lim_hist[b] = lim_hist.get(b, 0) + 1
     around = sum(1 for i in created if created[i] <= 150)
-    distinct = set((dc.to_mangle(progs[i]) + "#" + dc.facts_text(progs[i].get("pre", [])), l) for (i, _, _, l) in runs)
+    distinct = set((dc.to_mangle(progs[i]) + "#" + dc.facts_text(progs[i].get("pre", [])), l) for (i, _, _, l, _) in runs)
     sample_i = ncorpus + nexh
-    cov = {"evaluations": len(runs) + len(sizing), "limited_runs": len(runs), "sizing_runs": len(sizing),
+    cov = {"evaluations": len(runs) + len(sizing) + mixed_evals, "limited_runs": len(runs), "sizing_runs": len(sizing),
+           "limited_runs_with_temporal_store_configured": sum(1 for x in runs if x[4]),
+           "verdicts_with_temporal_store_configured": {str(k): n for k, n in sorted(vc_ts.items())},
+           "non_temporal_program_wrote_temporal_store": temporal_nonempty,
+           "skipped_after_guard_expiries": breaker_skipped,
+           "temporal_and_mixed_stream": mixed_cov,
            "programs": len(progs), "comparisons": len(terms),
            "distinct_nontrivial": len(distinct),
            "rule": "programs through parse -> AnalyzeOneUnit -> Stratify -> EvalStratifiedProgramWithStats with "
-                   "WithCreatedFactLimit(L) on simple/indexed/multi/array stores, with and without deterministic order "
+                   "WithCreatedFactLimit(L) on simple/indexed/multi/array stores, with and without deterministic order, "
+                   "each limited run without and with WithTemporalStore(empty store) + WithEvaluationTime "
                    "(corpus %d, exhaustive-sweep programs %d, generated %d); evaluations = engine runs incl. one sizing "
-                   "run per program; distinct_nontrivial = distinct (program text, caller facts, limit); every program "
-                   "has at least one rule and base facts" % (ncorpus, nexh, nrandom),
+                   "run per program and the temporal / mixed stream (runner c17_mixed: programs with a `temporal` "
+                   "predicate, alone or next to ordinary recursion, %d programs, judged by property-level oracles); "
+                   "distinct_nontrivial = distinct (program text, caller facts, limit); every program "
+                   "has at least one rule and base facts" % (ncorpus, nexh, nrandom, len(mixed_progs)),
            "exhaustive": nexh > 0,
            "exhaustive_scope": ("every limit 1..30 x 4 store kinds x deterministic order on/off on %d fixed programs "
                                 "(all families: counters eq/head/let/minus, list, pair, products, fan-out, mutual, "
@@ -598,7 +869,13 @@ def run(ck):
         "limit_ok_complete reduces a nil-error result to the unlimited model; that the unlimited model computes the "
         "stratified least model is C01's theorem (Props/C01.v), taken as a hypothesis of the C17 corollary until it is closed",
         "fragment of the C01 model: names, strings, int64, pairs, lists; fn:plus/minus/mult/div/pair/cons/list/len; "
-        "= != < <= > >=; let-transforms; no do-transforms, external / deferred / merge predicates; temporal programs: probe only",
+        "= != < <= > >=; let-transforms; no do-transforms, external / deferred / merge predicates",
+        "the temporal store is a configuration dimension of the correspondence, not of the model: non-temporal programs "
+        "are run with and without WithTemporalStore and judged by the same model; programs with temporal predicates "
+        "(alone or mixed with ordinary recursion; annotation-copy rules t(..)@[S,E] :- t(..)@[S,E], .., links through "
+        "p(X) :- t(X)@[S,E] and t(X)@[now] :- p(X)) are judged by property-level oracles on Go's outputs only (guard; nil "
+        "error on a program diverging by construction; nil error with stores != the engine's own unlimited run; stores "
+        "above |E| + (rules + 2) * L - for the temporal store an oracle bound, not a theorem)",
         "stores with an exact EstimateFactCount (simple, indexed, multi-indexed, array); merged/teeing stores "
         "over-estimate and are not run",
         "wall-clock guard %d ms per evaluation: a slower return would be reported as (b)" % GUARD_MS,
@@ -616,19 +893,55 @@ def replay(ck, path):
             print("VIOLATION property=C17 replay=%s" % path)
             return 1
         return 0
+    if "mixed_program" in rep:
+        mp, bad = rep["mixed_program"], False
+        ref = None
+        if not mp["diverges"]:
+            o = ck.run_go("c17_mixed", [mixed_case(mp, "simple", True, 0)])[0]
+            ref = o.get("out") if o.get("out", {}).get("err") == "" else None
+        for l in rep.get("limits", [rep.get("limit")]):
+            for st in STORES:
+                for det in (False, True):
+                    # own process per run: a diverging evaluation dies with it
+                    o = ck.run_go("c17_mixed", [mixed_case(mp, st, det, l)])[0]
+                    r = o.get("out")
+                    if r is None or r["stage"] != "ok":
+                        print("replay: not evaluated: %s" % json.dumps(o)[:300])
+                        bad = True
+                        continue
+                    code, text = mixed_verdict(mp, r, l, ref)
+                    print("replay: %s det=%s limit=%d: go %s, %d ordinary / %d temporal facts: %s"
+                          % (st, det, l, r["err"] or "ok", r["plain_after"], r["temporal_after"], text or "holds"))
+                    bad = bad or code is not None
+        if bad:
+            print("VIOLATION property=C17 replay=%s" % path)
+            return 1
+        return 0
     prog, l = rep["program"], rep["limit"]
     bad = False
-    for st in stores_for(prog, l):      # hash-keyed stores only where the run stays off F8
-        for det in (False, True):
-            o = ck.run_go("c17", [go_case(prog, st, det, l)])[0]
-            if "out" not in o or o["out"]["stage"] != "ok":
-                print("replay: not evaluated: %s" % json.dumps(o)[:300])
-                bad = True
-                continue
-            v = ck.run_coq("C17", "judge", [cq_case(prog, o["out"], l)])[0]
-            print("replay: %s det=%s limit=%d: go %s, %d facts, verdict %d %s"
-                  % (st, det, l, o["out"]["err"] or "ok", o["out"]["n_after"], v, VERDICT.get(v, "agree")))
-            bad = bad or v in VIOLATING
+    # hash-keyed stores only where the run stays off F8; one batch (the harness stops a batch
+    # after three guard expiries), one Coq evaluation
+    cfgs = [(st, det, ts) for st in stores_for(prog, l) for det in (False, True) for ts in (False, True)]
+    outs = ck.run_go("c17", [go_case(prog, st, det, l, tstore=ts) for st, det, ts in cfgs])
+    terms, idx = [], {}
+    for k, o in enumerate(outs):
+        if "out" in o and o["out"]["stage"] == "ok" and o["out"]["err"] not in ("timeout", "panic"):
+            idx[k] = len(terms)
+            terms.append(cq_case(prog, o["out"], l))
+    vs = ck.run_coq("C17", "judge", terms)
+    for k, ((st, det, ts), o) in enumerate(zip(cfgs, outs)):
+        if "out" not in o or o["out"]["stage"] != "ok":
+            print("replay: %s det=%s tstore=%s: not evaluated: %s" % (st, det, ts, json.dumps(o)[:300]))
+            bad = True
+            continue
+        if o["out"]["err"] == "panic":
+            print("replay: %s det=%s tstore=%s: panic %s" % (st, det, ts, o["out"].get("emsg")))
+            bad = True
+            continue
+        v = vs[idx[k]] if k in idx else 8
+        print("replay: %s det=%s tstore=%s limit=%d: go %s, %d facts, verdict %d %s"
+              % (st, det, ts, l, o["out"]["err"] or "ok", o["out"]["n_after"], v, VERDICT.get(v, "agree")))
+        bad = bad or v in VIOLATING
     if bad:
         print("VIOLATION property=C17 replay=%s" % path)
         return 1
